@@ -474,8 +474,10 @@ var (
 		DetectGCP:    true,
 		DetectPCF:    true,
 		DetectDocker: true,
-		AppTimeout:   config.Timeout(limits.DefaultAppTimeout),
-		WaitForPort:  3 * time.Second,
+		// documented default (newrelic.cfg: utilization.detect_kubernetes)
+		DetectKubernetes: true,
+		AppTimeout:       config.Timeout(limits.DefaultAppTimeout),
+		WaitForPort:      3 * time.Second,
 	}
 )
 
